@@ -1227,6 +1227,38 @@ theorem reap_keeps_newest (keep : Nat) (l : List Snaps.Snap) :
       · exact hmax x hx'
 example : Snaps.reap 2 [⟨1, 9, 1⟩, ⟨2, 5, 2⟩, ⟨1, 100, 3⟩] = [⟨2, 5, 2⟩, ⟨1, 100, 3⟩] := by decide
 
+
+/-- the SEMANTIC tie of `raftStateManager.ImportState` (go/ast → operation list, not text): the regenerated list decodes to
+    Clean, GetStore, GetOfflineState, importState, SnapshotSave, every error ending the function -/
+theorem gen_sem_import_ops :
+    Gen.SemImport.raftImportOps.map decodeOp = [some .clean, some .store, some .offline, some .imp, some .save] := by decide
+
+/-- … and INTERPRETED on the folder model it is `importD`, for every folder (damaged, tied, absent) and every pinset — so with
+    `import_onto_damaged_id` the regenerated operation list itself replaces whatever was there -/
+theorem gen_sem_import_is_model (f : DFolder) (c : Nat) :
+    runImport (Gen.SemImport.raftImportOps.map decodeOp) f none none c = some (importD f c) := by
+  rw [gen_sem_import_ops]
+  have hd : (cleanupD f).data = none := by
+    cases f with
+    | none => rfl
+    | some l => simp only [cleanupD]; cases newestD l <;> rfl
+  have hs : (saveD none c).old0 = none := by simp [saveD, newestD]
+  simp [runImport, hd, offlineD, importD, hs]
+  intro h; exact h.symm
+example : runImport (Gen.SemImport.raftImportOps.map decodeOp) (some [⟨⟨1, 9, 2⟩, false⟩, ⟨⟨2, 5, 3⟩, true⟩]) none none 4
+    = some ⟨some [⟨⟨1, 2, 4⟩, false⟩], some [⟨⟨1, 9, 2⟩, false⟩, ⟨⟨2, 5, 3⟩, true⟩], false⟩ := by decide
+
+/-- the alternative "no Clean first, SnapshotSave does the backup" (the seeded change of round 8), interpreted: on a folder whose
+    newest snapshot is damaged the import FAILS and nothing is replaced — a second failing input for it besides log-without-snapshot -/
+theorem import_without_clean_fails_on_damaged :
+    runImport [some .store, some .offline, some .imp, some .save] (some [⟨⟨2, 5, 3⟩, true⟩]) none none 4
+      = some ⟨some [⟨⟨2, 5, 3⟩, true⟩], none, true⟩ := by decide
+
+/-- the decode loop of `importState`: decode, end of stream ⇒ done, error ⇒ stop, add, error ⇒ stop, count -/
+theorem gen_sem_import_loop :
+    Gen.SemImport.importLoop = ["var", "dec.Decode", "if err == io.EOF return n, nil", "if err != nil return n, err",
+      "st.Add", "if err != nil return n, err", "n++"] := by decide
+
 end DamageTheorems
 
 
